@@ -58,8 +58,8 @@ CATALOGUE = [
      "                if not process.is_alive():\n                    break\n                yield tornado_sleep(0.1)\n                waited += 0.1",
      "                if not process.is_alive():\n                    break\n                time.sleep(0.1)\n                waited += 0.1"),
     ('C05-b', 'C05', W,
-     "            while process.stopping:\n                yield tornado_sleep(0.1)\n            raise gen.Return(False)",
-     "            raise gen.Return(False)"),
+     "            while process.stopping:\n                yield tornado_sleep(0.1)\n            if not process.kill_failed:\n                raise gen.Return(False)",
+     "            if not process.kill_failed:\n                raise gen.Return(False)"),
     ('C06-a', 'C06', C,
      "        resp['id'] = mid\n        resp = json.dumps(resp)",
      "        resp = json.dumps(resp)"),
@@ -79,8 +79,8 @@ CATALOGUE = [
      "            # (not before its last output has been passed on)\n            self.stream_redirector.flush_redirections(process)\n",
      ""),
     ('C17-e', 'C17', 'circus/watcher.py',
-     "                self.stream_redirector.flush_redirections(process)\n                self.stream_redirector.remove_redirections(process)\n        finally:",
-     "                self.stream_redirector.remove_redirections(process)\n        finally:"),
+     "                self.stream_redirector.flush_redirections(process)\n                self.stream_redirector.remove_redirections(process)\n        except Exception:",
+     "                self.stream_redirector.remove_redirections(process)\n        except Exception:"),
     ('C01-d', 'C01', 'circus/watcher.py',
      "                if kept:\n                    yield [self.kill_process(process) for process in kept]",
      "                if False:\n                    yield [self.kill_process(process) for process in kept]"),
@@ -208,6 +208,12 @@ CATALOGUE = [
 ]
 
 
+# mutants that need a rarer conjunction than the default 12 s reach reliably
+# (C05-d: an on-demand start asleep in its warm-up, overlapped by a stop -
+# about one C05 quick episode in 8000)
+BUDGET = {'C05-d': 75}
+
+
 def run_check(prop, repo, budget):
     env = dict(os.environ)
     env['VERIF_REPO'] = repo
@@ -251,7 +257,8 @@ def main(rest):
                 shutil.rmtree(d, ignore_errors=True)
                 continue
             open(fn, 'w').write(src.replace(old, new))
-            rc, oracles, tail = run_check(prop, d, budget)
+            rc, oracles, tail = run_check(prop, d,
+                                          max(budget, BUDGET.get(mid, 0)))
             status = 'KILLED' if rc == 1 else \
                 ('HARNESS-ERROR' if rc == 2 else 'MISSED')
             print('%-7s %s: %s %s' % (mid, prop, status, ','.join(oracles)))
